@@ -113,7 +113,12 @@ pub fn check_state(repo: &Repo, fmt: &str, cx: &mut Cx) -> Res {
         ensure!(v.bumped_timestamp == Some(m.commits[head].time), "bumped_timestamp {:?}, HEAD commit time is {} ({})", v.bumped_timestamp, m.commits[head].time, ctx());
     }
     ensure!(v.last_timestamp == Some(m.commits[tc].time), "last_timestamp {:?}, tagged commit time is {} ({})", v.last_timestamp, m.commits[tc].time, ctx());
-    // --- version fields for tags that read the same in every applicable format: plain X.Y.Z
+    // --- version fields for tags whose reading is the same in every format that accepts them
+    if let Some((epoch, core, pre, post, dev)) = expected_fields(&tag) {
+        let got = (v.epoch, [v.major, v.minor, v.patch], v.pre_release, v.post, v.dev);
+        ensure!(got == (epoch, core, pre, post, dev), "version fields {got:?} do not match tag {tag} (expected {:?})", (epoch, core, pre, post, dev));
+        cx.label("fields-checked");
+    }
     let plain = tag.strip_prefix('v').unwrap_or(&tag);
     let parts: Vec<&str> = plain.split('.').collect();
     if parts.len() == 3 && parts.iter().all(|p| !p.is_empty() && p.bytes().all(|b| b.is_ascii_digit()) && (*p == "0" || !p.starts_with('0'))) {
@@ -140,6 +145,33 @@ pub fn check_state(repo: &Repo, fmt: &str, cx: &mut Cx) -> Res {
     Ok(())
 }
 
+type Fields = (Option<u64>, [Option<u64>; 3], Option<(u8, Option<u64>)>, Option<u64>, Option<u64>);
+/// fields by construction for the tag names of gitlab::TAGS that SemVer and PEP 440 read alike
+/// (or that only one of them accepts)
+fn expected_fields(tag: &str) -> Option<Fields> {
+    let s = |a: u64, b: u64, c: u64| [Some(a), Some(b), Some(c)];
+    Some(match tag {
+        "1.0.0-rc.1" => (None, s(1, 0, 0), Some((2, Some(1))), None, None),
+        "1.0.0-alpha.1" => (None, s(1, 0, 0), Some((0, Some(1))), None, None),
+        "v1.0.0-beta.2" => (None, s(1, 0, 0), Some((1, Some(2))), None, None),
+        "2.0.0-rc.1.post.3" => (None, s(2, 0, 0), Some((2, Some(1))), Some(3), None),
+        "1.2.3+build.5" => (None, s(1, 2, 3), None, None, None),
+        "1.0" => (None, [Some(1), Some(0), None], None, None, None),
+        "1.0a1" => (None, [Some(1), Some(0), None], Some((0, Some(1))), None, None),
+        "2!1.0" => (Some(2), [Some(1), Some(0), None], None, None, None),
+        "1.0.post1" => (None, [Some(1), Some(0), None], None, Some(1), None),
+        "1.0.0.dev3" => (None, s(1, 0, 0), None, None, Some(3)),
+        "v3.1" => (None, [Some(3), Some(1), None], None, None, None),
+        "1.2.3.4" => (None, s(1, 2, 3), None, None, None),
+        "3.0.0rc1" => (None, s(3, 0, 0), Some((2, Some(1))), None, None),
+        "01.02.03" => (None, s(1, 2, 3), None, None, None),
+        "v1.2.3.post1" => (None, s(1, 2, 3), None, Some(1), None),
+        "V1.2.3" => (None, s(1, 2, 3), None, None, None),
+        "4.0.0-RC.1" => (None, s(4, 0, 0), Some((2, Some(1))), None, None),
+        _ => return None,
+    })
+}
+
 pub fn op_strategy() -> BoxedStrategy<Op> {
     let skew = || prop_oneof![2 => Just(0i64), 2 => -300_000i64..300_000];
     prop_oneof![
@@ -148,8 +180,8 @@ pub fn op_strategy() -> BoxedStrategy<Op> {
         2 => (0usize..6).prop_map(|branch| Op::Checkout { branch }),
         1 => (0usize..30).prop_map(|commit| Op::Detach { commit }),
         3 => (0usize..6, proptest::option::weighted(0.2, 0usize..6), skew()).prop_map(|(other, third, time_skew)| Op::Merge { other, third, time_skew }),
-        7 => (0usize..34, any::<bool>(), proptest::option::weighted(0.3, 0usize..30)).prop_map(|(name, annotated, at)| Op::Tag { name, annotated, at }),
-        1 => (0usize..34).prop_map(|name| Op::TagUnreachable { name }),
+        7 => (0usize..crate::gitlab::TAGS.len(), any::<bool>(), proptest::option::weighted(0.3, 0usize..30)).prop_map(|(name, annotated, at)| Op::Tag { name, annotated, at }),
+        1 => (0usize..crate::gitlab::TAGS.len()).prop_map(|name| Op::TagUnreachable { name }),
         1 => (0usize..8).prop_map(|which| Op::DeleteTag { which }),
         1 => Just(Op::DirtyModify),
         1 => Just(Op::DirtyStage),
